@@ -296,6 +296,8 @@ def c11(tier):
     run.add_jobs(jobs_for(fam, {"pause": 1, "cancel": 1, "max_nodes": sizes(tier, 700, 4000)}, s, ("yaql",), tok="visit"))
     run.add_jobs(jobs_for(fam, {"pause": 1, "max_nodes": sizes(tier, 500, 4000)}, s, ("jinja",), tok="visit"))
     rend = [d for d in fam if d["fault"]["pos"] in ("action", "input", "items", "conc", "delay")][::2]
+    # (the retry positions are evaluated when an execution record is created - also by a rerun)
+    rend += [d for d in fam if d["fault"]["pos"] in ("retry_count", "retry_delay", "retry_when")]
     run.add_jobs(jobs_for(rend, {"rerun": 1, "rerun_tasks": "all", "max_nodes": sizes(tier, 900, 4000)}, s, ("yaql", "jinja")))
     # the faulty position evaluated by a late completion: the action went pending (an inquiry), the workflow
     # was paused / canceled meanwhile, then the action completes
